@@ -1,6 +1,6 @@
 """C13 — wire rate never exceeds the negotiated ceiling."""
 from props import _hc
-from hc_oracles import wire_rate_oracle, crash_oracle, frame_size_oracle
+from hc_oracles import wire_rate_oracle, crash_oracle, frame_size_oracle, rate_oracle
 
 PROP = "C13"
 COQ_FILE = "props/C13.v"
@@ -11,9 +11,18 @@ ASSUMPTIONS = ['proved: X <= ceiling (all reachable controller states), frames o
 THEOREM_STATEMENTS = []
 
 
+def ceiling_oracle(ops, out):
+    """the controller-level half of C13 (theorem C13_rate_le_ceiling) on the implementation: the allowed rate the
+    rate stream reports never exceeds the configured ceiling"""
+    f = rate_oracle(ops, out)
+    return f if f and "exceeds the ceiling" in f else None
+
+
 def streams(seed, tier):
-    return _hc.build_streams(["ratepair", "ackflood"], seed, tier, 2.0)
+    return _hc.build_streams(["ratepair", "ackflood"], seed, tier, 2.0) + _hc.build_streams(["rate"], seed, tier, 1.0)
 
 
 def oracle(name, ops, out):
+    if _hc.stream_of(name) == "rate":
+        return ceiling_oracle(ops, out)
     return _hc.run_oracles({"*": [crash_oracle, frame_size_oracle], "ratepair": [wire_rate_oracle], "ackflood": [wire_rate_oracle]}, name, ops, out)
